@@ -69,12 +69,27 @@ Lemma be32_bytes x : Forall (fun b => 0 <= b < 256) (be32 x).
 Proof. unfold be32. repeat constructor; lia. Qed.
 
 (* reading *)
+Lemma from_eq m i : from m i = skipn (Z.to_nat i) m.
+Proof.
+  unfold from. destruct (zlen m <=? i) eqn:E; [|reflexivity].
+  apply Z.leb_le in E. symmetry. apply skipn_all2. unfold zlen in E. lia.
+Qed.
+
+Lemma rd_eq m i : rd m i = if i <? 0 then Oob else
+  match nth_error m (Z.to_nat i) with Some b => Ok b | None => Oob end.
+Proof.
+  unfold rd. destruct (i <? 0) eqn:E0; [reflexivity|]. apply Z.ltb_ge in E0.
+  destruct (zlen m <=? i) eqn:E; [|reflexivity].
+  apply Z.leb_le in E. replace (nth_error m (Z.to_nat i)) with (@None byte); [reflexivity|].
+  symmetry. apply nth_error_None. unfold zlen in E. lia.
+Qed.
+
 Lemma from_0 m : from m 0 = m.
-Proof. reflexivity. Qed.
+Proof. rewrite from_eq. reflexivity. Qed.
 
 Lemma from_app_len (l1 l2 : list byte) : from (l1 ++ l2) (zlen l1) = l2.
 Proof.
-  unfold from, zlen. rewrite Nat2Z.id.
+  rewrite from_eq. unfold zlen. rewrite Nat2Z.id.
   rewrite skipn_app, skipn_all, Nat.sub_diag. reflexivity.
 Qed.
 
@@ -86,6 +101,6 @@ Qed.
 
 Lemma from_add m p k : 0 <= p -> 0 <= k -> from m (p + k) = from (from m p) k.
 Proof.
-  intros Hp Hk. unfold from. rewrite Z2Nat.inj_add by assumption.
+  intros Hp Hk. rewrite !from_eq. rewrite Z2Nat.inj_add by assumption.
   symmetry. apply skipn_skipn'.
 Qed.
